@@ -155,7 +155,7 @@ func runC20(c *Ctx) {
 		c.J.Log("CASE %s kind=%s cap=%v sasl=%v tracking=%v passlen=%d", Case("pw", idx), kind, capn, useSasl, tracking, len(pass))
 		// control runs with an empty password: the same session (the write fault one line earlier, as there is no
 		// PASS line) and a complete successful one; a password occurring in either log is trivial
-		failAt := 1 + r.Intn(4)
+		failAt := 1 + r.Intn(2) // at most the second write: every session writes at least NICK and USER
 		trivial := false
 		for _, ck := range []struct {
 			kind string
